@@ -1,5 +1,8 @@
 import MoneroModel.Proofs.TreeHash2
+import MoneroModel.Proofs.TreeHash3
 import MoneroModel.Proofs.VarIntImp
+import MoneroModel.Model.TxHash
+import MoneroModel.Gen.Consts
 open Monero Monero.TreeHash
 /-! # C06 — block id, proof-of-work blob and Merkle root follow the CryptoNote definition
 
@@ -113,5 +116,186 @@ example : ∃ (H : Bytes → Bytes) (root : Bytes) (extra : List Bytes),
 
 /-- … and on that instance the value is the expected one: keep `h₀`, pair `h₁,h₂`, combine -/
 example : Spec.TreeHash.treeSpec (fun b => b.take 1) [[1], [2], [3]] = [1] := by decide
+
+/-! ## The constants of the current source, tightness of the `2^28` bound, well-formedness of the reference definition,
+and the statement for parsed blocks (added after the audit of C06) -/
+
+/-- the two identifiers of block 202612 REGENERATED from the current source of src/blockdata/block.rs
+(`CORRECT_BLOCK_ID_202612`, `EXISTING_BLOCK_ID_202612` → `Gen.correctId202612`, `Gen.existingId202612`) are the two
+constants of the specification: an edit of either constant in the source makes this theorem fail -/
+theorem C06_consts :
+    Gen.correctId202612 = Spec.TreeHash.computedId202612 ∧ Gen.existingId202612 = Spec.TreeHash.historicalId202612 := by
+  decide
+
+/-- the two constants differ (otherwise the substitution would be invisible), and both are 32 bytes long -/
+theorem C06_consts_distinct :
+    Gen.correctId202612 ≠ Gen.existingId202612 ∧ Gen.correctId202612.length = 32 ∧ Gen.existingId202612.length = 32 := by
+  decide
+
+/-- `Block::id` WITH THE CONSTANTS OF THE CURRENT SOURCE is the specified identifier of the specified blob
+(`C06_id` part 2 with the regenerated constants in place of the specification's) -/
+theorem C06_id_gen (H : Bytes → Bytes) (hdr minerTxHash : Bytes) (txHashes : List Bytes)
+    (hmax : txHashes.length + 1 ≤ 2^28) :
+    blockId H Gen.correctId202612 Gen.existingId202612 hdr minerTxHash txHashes =
+      some (Spec.TreeHash.blockSpec H hdr minerTxHash txHashes).2.2 := by
+  rw [C06_consts.1, C06_consts.2]
+  exact (C06_id H Spec.TreeHash.computedId202612 Spec.TreeHash.historicalId202612).2 hdr minerTxHash txHashes hmax
+
+/-- TIGHTNESS of the hypothesis `len + 1 ≤ 2^28` of `C06_tree_eq_spec` / `C06_root` / `C06_blob` / `C06_id`: above it the
+second assert of `tree_hash_cnt` fires, i.e. `tree_hash`, `Block::tx_root`, `Block::serialize_hashable` and `Block::id`
+PANIC. So the library computes the CryptoNote tree hash exactly for `n ≤ 2^28` leaves and no value at all above
+(the property's "every number of transactions" holds up to the code's own sanity limit, and this is the whole story). -/
+theorem C06_tree_panics (H : Bytes → Bytes) (root : Bytes) (extra : List Bytes) (h : 2^28 < extra.length + 1) :
+    treeHash H root extra = none := by
+  match extra, h with
+  | [], h => simp at h
+  | [_], h => simp at h
+  | a :: b :: t, h =>
+    have hbranch : treeHash H root (a :: b :: t) = treeHashMany (hashConcat H) root (a :: b :: t) := rfl
+    rw [hbranch]
+    unfold treeHashMany
+    simp only [(C06_cnt_asserts ((a :: b :: t).length + 1)).2 (Or.inr h)]
+
+/-- … hence `tree_hash` returns a value exactly when there are at most `2^28` leaves, and then the CryptoNote tree hash -/
+theorem C06_tree_defined_iff (H : Bytes → Bytes) (root : Bytes) (extra : List Bytes) :
+    (treeHash H root extra = none ↔ 2^28 < extra.length + 1) ∧
+    (∀ v, treeHash H root extra = some v → v = Spec.TreeHash.treeSpec H (root :: extra)) := by
+  by_cases hmax : extra.length + 1 ≤ 2^28
+  · have e := C06_tree_eq_spec H root extra hmax
+    refine ⟨⟨fun hn => ?_, fun hb => by omega⟩, fun v hv => ?_⟩
+    · rw [e] at hn; cases hn
+    · rw [e] at hv; exact (Option.some.inj hv).symm
+  · have e := C06_tree_panics H root extra (by omega)
+    refine ⟨⟨fun _ => by omega, fun _ => e⟩, fun v hv => ?_⟩
+    rw [e] at hv; cases hv
+
+/-- the same for the three block methods: above `2^28` leaves all of them panic -/
+theorem C06_block_panics (H : Bytes → Bytes) (c e hdr minerTxHash : Bytes) (txHashes : List Bytes)
+    (h : 2^28 < txHashes.length + 1) :
+    txRoot H minerTxHash txHashes = none ∧ serializeHashable H hdr minerTxHash txHashes = none ∧
+    blockId H c e hdr minerTxHash txHashes = none := by
+  have hr : txRoot H minerTxHash txHashes = none := C06_tree_panics H minerTxHash txHashes h
+  have hs : serializeHashable H hdr minerTxHash txHashes = none := by unfold serializeHashable; rw [hr]
+  exact ⟨hr, hs, by unfold blockId; rw [hs]⟩
+
+/-- the level used by the reference definition, for EVERY `n ≥ 2` (no upper bound; `C06_cnt` says that the code's
+`tree_hash_cnt` returns `2 ^ levelBelow n` on its domain `3 ≤ n ≤ 2^28`): `2 ^ levelBelow n` is the largest power of two
+strictly below `n` -/
+theorem C06_spec_level (n : Nat) (h : 2 ≤ n) :
+    2 ^ Spec.TreeHash.levelBelow n < n ∧ n ≤ 2 * 2 ^ Spec.TreeHash.levelBelow n ∧
+    ∀ k, 2^k < n → 2^k ≤ 2 ^ Spec.TreeHash.levelBelow n := by
+  obtain ⟨hlo, hhi⟩ := levelBelow_bounds n h
+  refine ⟨hlo, hhi, fun k hk => ?_⟩
+  have hpow : 2 ^ (Spec.TreeHash.levelBelow n + 1) = 2 * 2 ^ Spec.TreeHash.levelBelow n := by rw [Nat.pow_succ]; omega
+  have : 2^k < 2 ^ (Spec.TreeHash.levelBelow n + 1) := by omega
+  have hkm : k < Spec.TreeHash.levelBelow n + 1 := (Nat.pow_lt_pow_iff_right (a := 2) (by decide)).1 this
+  exact Nat.pow_le_pow_right (by decide) (by omega)
+
+/-- WELL-FORMEDNESS OF THE REFERENCE DEFINITION. `Spec.TreeHash.treeSpec` is written with total list functions
+(`2·cnt − n` truncated, `pairUp` dropping an odd last element, `perfect` with `headD []` and `take`/`drop`). For every list of
+`n ≥ 3` hashes (NO upper bound) none of these defaults is ever exercised: with `m = levelBelow n`, `cnt = 2^m`,
+`keep = 2·cnt − n`: `cnt < n ≤ 2·cnt` (`cnt` IS the largest power of two strictly below `n`), `keep < cnt`, `keep ≤ n`, the
+list handed to `pairUp` has the even length `2·(n − cnt)` and yields `n − cnt` nodes, the list handed to `perfect` has exactly
+`2^m` nodes, the root of `perfect` over exactly `2^m` nodes does not depend on the default (`perfectD` with any default `d`),
+and every hash of the input is used: `keep + 2·(n − cnt) = n`. -/
+theorem C06_spec_wf (H : Bytes → Bytes) (hs : List Bytes) (h : 3 ≤ hs.length) :
+    let m := Spec.TreeHash.levelBelow hs.length
+    let keep := 2 * 2 ^ m - hs.length
+    2 ^ m < hs.length ∧ hs.length ≤ 2 * 2 ^ m ∧ keep < 2 ^ m ∧ keep ≤ hs.length ∧
+    (hs.drop keep).length = 2 * (hs.length - 2 ^ m) ∧ keep + 2 * (hs.length - 2 ^ m) = hs.length ∧
+    (Spec.TreeHash.pairUp H (hs.drop keep)).length = hs.length - 2 ^ m ∧
+    (hs.take keep ++ Spec.TreeHash.pairUp H (hs.drop keep)).length = 2 ^ m ∧
+    (∀ d, Spec.TreeHash.treeSpec H hs = perfectD H d m (hs.take keep ++ Spec.TreeHash.pairUp H (hs.drop keep))) := by
+  have hb := levelBelow_bounds hs.length (by omega)
+  obtain ⟨h1, h2, h3, h4, h5, h6⟩ := treeSpec_shape H hs h
+  refine ⟨hb.1, h1, h2, h3, h4, ?_, h5, h6, fun d => ?_⟩
+  · have := hb.1; omega
+  · rw [perfect_default_irrelevant H d _ _ h6, treeSpec_many H hs h]
+
+/-- in `perfect` over exactly `2^(m+1)` nodes both halves have exactly `2^m` nodes, and over `2^0` nodes the single node is the
+root: the recursion of the reference definition never meets an empty or a ragged list -/
+theorem C06_spec_perfect_wf (H : Bytes → Bytes) :
+    (∀ (l : List Bytes), l.length = 2^0 → ∃ x, l = [x] ∧ Spec.TreeHash.perfect H 0 l = x) ∧
+    (∀ (m : Nat) (l : List Bytes), l.length = 2^(m+1) →
+      (l.take (2^m)).length = 2^m ∧ (l.drop (2^m)).length = 2^m ∧ l.take (2^m) ++ l.drop (2^m) = l) := by
+  constructor
+  · intro l hl
+    match l, hl with
+    | [a], _ => exact ⟨a, rfl, rfl⟩
+  · intro m l hl
+    have hpow : 2 ^ (m + 1) = 2 * 2 ^ m := by rw [Nat.pow_succ]; omega
+    exact ⟨by rw [List.length_take, hl, hpow]; omega, by rw [List.length_drop, hl, hpow]; omega, List.take_append_drop _ _⟩
+
+/-- the serialised header is the by-the-book layout
+`varint(major) ‖ varint(minor) ‖ varint(timestamp) ‖ prev_id ‖ nonce (4 bytes, little endian)` of the header's fields -/
+theorem C06_header_layout (d : Spec.HeaderD) : encHeader (buildHeader d) = Spec.specHeader d :=
+  encHeader_eq_specHeader d
+
+/-- FOR EVERY PARSED BLOCK (`block` = the model of `Block::consensus_decode`, tied to the code by C01–C03), with NO
+size hypothesis (the decoder's allocation cap keeps the number of listed hashes below `2^28`), with the miner-transaction
+identifier computed by the model of `Transaction::hash` (C05) and the constants of the current source:
+* `tx_root` is the CryptoNote tree hash of the miner-transaction identifier followed by the listed hashes,
+* `serialize_hashable` is `serialised header ‖ root ‖ LEB128(n + 1)`,
+* `id` is `H(LEB128(|blob|) ‖ blob)` except that the identifier computed for block 202612 is replaced by the historical one,
+* none of them panics,
+* and the serialised header is literally the leading bytes of the block. -/
+theorem C06_parsed_block (H : Bytes → Bytes) (b r : Bytes) (blk : Block) (h : block b = some (blk, r)) :
+    let hdr := encHeader blk.hdr
+    let mid := txHash H blk.miner
+    let root := Spec.TreeHash.treeSpec H (mid :: blk.hashes)
+    let blob := hdr ++ root ++ Spec.leb128 (blk.hashes.length + 1)
+    let hash := H (Spec.leb128 blob.length ++ blob)
+    txRoot H mid blk.hashes = some root ∧
+    serializeHashable H hdr mid blk.hashes = some blob ∧
+    blockId H Gen.correctId202612 Gen.existingId202612 hdr mid blk.hashes =
+      some (if hash = Spec.TreeHash.computedId202612 then Spec.TreeHash.historicalId202612 else hash) ∧
+    blockId H Gen.correctId202612 Gen.existingId202612 hdr mid blk.hashes =
+      some (Spec.TreeHash.blockSpec H hdr mid blk.hashes).2.2 ∧
+    (∃ rest, b = hdr ++ rest) := by
+  intro hdr mid root blob hash
+  have hmax := parsed_block_count b blk r h
+  have hid := C06_id_gen H hdr mid blk.hashes hmax
+  refine ⟨C06_root H mid blk.hashes hmax, ?_, ?_, hid, parsed_block_header_prefix b blk r h⟩
+  · rw [(C06_blob H hdr mid blk.hashes hmax).2]; rfl
+  · rw [hid]; rfl
+
+/-- the same for a block given by a DESCRIPTION of its fields (`Spec.BlockD`: header fields, miner transaction, hashes), so that
+the header layout appears in the statement: the blob starts with `Spec.specHeader` of the header's fields -/
+theorem C06_described_block (H : Bytes → Bytes) (d : Spec.BlockD) (hmax : d.txHashes.length + 1 ≤ 2^28) :
+    let blk := buildBlock d
+    let mid := txHash H blk.miner
+    serializeHashable H (encHeader blk.hdr) mid blk.hashes =
+      some (Spec.specHeader d.hdr ++ Spec.TreeHash.treeSpec H (mid :: d.txHashes) ++ Spec.leb128 (d.txHashes.length + 1)) ∧
+    blockId H Gen.correctId202612 Gen.existingId202612 (encHeader blk.hdr) mid blk.hashes =
+      some (Spec.TreeHash.blockSpec H (Spec.specHeader d.hdr) mid d.txHashes).2.2 := by
+  intro blk mid
+  have e : encHeader blk.hdr = Spec.specHeader d.hdr := encHeader_eq_specHeader d.hdr
+  have hh : blk.hashes = d.txHashes := rfl
+  rw [e, hh]
+  exact ⟨by rw [(C06_blob H _ mid d.txHashes hmax).2]; rfl, C06_id_gen H _ mid d.txHashes hmax⟩
+
+/-- the hypothesis of `C06_tree_panics` / `C06_block_panics` is satisfiable (only by huge lists) -/
+example : (2:Nat)^28 < (List.replicate (2^28) ([] : Bytes)).length + 1 := by
+  rw [List.length_replicate]; omega
+
+/-- the hypothesis of `C06_parsed_block` is satisfiable: a 110-byte block (header 1/0/0, prev_id 07…07, nonce 0x04030201, a
+version-1 miner transaction without inputs and outputs, one listed hash 09…09) parses completely in the model -/
+example : ∃ blk, block ([1, 0, 0] ++ List.replicate 32 7 ++ [1, 2, 3, 4] ++ [1, 0, 0, 0, 0] ++ [1] ++ List.replicate 32 9)
+    = some (blk, []) ∧ blk.hashes = [List.replicate 32 9] ∧ blk.hdr.nonce = 0x04030201 := by
+  have h : ((block ([1, 0, 0] ++ List.replicate 32 7 ++ [1, 2, 3, 4] ++ [1, 0, 0, 0, 0] ++ [1] ++ List.replicate 32 9)).map
+      (fun p => (p.1.hashes, p.1.hdr.nonce, p.2))) = some ([List.replicate 32 9], 0x04030201, []) := by decide +kernel
+  cases hb : block ([1, 0, 0] ++ List.replicate 32 7 ++ [1, 2, 3, 4] ++ [1, 0, 0, 0, 0] ++ [1] ++ List.replicate 32 9) with
+  | none => rw [hb] at h; cases h
+  | some p =>
+    rw [hb] at h
+    simp only [Option.map_some, Option.some.injEq, Prod.mk.injEq] at h
+    exact ⟨p.1, by rw [← h.2.2], h.1, h.2.1⟩
+
+/-- the hypothesis of `C06_described_block`: any description with few hashes, e.g. none -/
+example (d : Spec.BlockD) (h : d.txHashes = []) : d.txHashes.length + 1 ≤ 2^28 := by rw [h]; decide
+
+/-- the hypothesis of `C06_spec_wf` on a concrete list (5 leaves: `m = 2`, `cnt = 4`, `keep = 3`, one pair) -/
+example : Spec.TreeHash.levelBelow 5 = 2 ∧ 2 * 2 ^ 2 - 5 = 3 ∧
+    Spec.TreeHash.treeSpec (fun b => b.take 1) [[1], [2], [3], [4], [5]] = [1] := by decide
 
 end C06
